@@ -1,4 +1,4 @@
-import BobModel.Proofs.C18Result
+import BobModel.Proofs.C18Complete
 import BobModel.Proofs.C18Norm
 import BobModel.Generated.ConstsC18
 /-
@@ -194,6 +194,99 @@ theorem valid_on_result_paths (g : Graph) (hwf : g.WF) (mode : Mode) (steps : St
   · intro a ha; simp at ha; subst ha; exact reach_refl g _
   · intro a ha; simp at ha; subst ha; exact reach_refl g _
   · intro a ha; simp at ha; subst ha; exact ⟨g.root, by simp, reach_refl g _⟩
+
+
+/-- `__findIntermediateNodes` (since 6706b01): exactly the packages that are reachable from an old
+context node and from which a new context node is reachable, i.e. the packages on any path between
+`old` and `new` — independent of any iteration order -/
+theorem intermediate_nodes_spec (g : Graph) (hwf : g.WF) (hac : g.Acyclic) (old new : List Node) (qi : Bool)
+    (hsup : superset old new = false) (y : Node) :
+    y ∈ findIntermediateNodes g old new qi ↔
+      (∃ o ∈ old, ReachQ g qi o y) ∧ ∃ t ∈ new, Relation.TransGen (edge g qi) y t :=
+  findIntermediateNodes_spec hwf hac old new qi hsup y
+
+/-- **every selected package is reported at least once** (both with `queryAll` False and True): trimming
+`valid` never disconnects a result, and the depth fuel of the two recursive walks suffices on every
+acyclic graph -/
+theorem result_paths_complete (g : Graph) (hwf : g.WF) (hac : g.Acyclic) (mode : Mode) (steps : Steps)
+    (queryAll : Bool) (out : List (List Str × Node)) (hout : queryTree g mode steps queryAll = .ok out) :
+    ∀ n, sem g steps g.root n → ∃ s, (s, n) ∈ out := by
+  intro n hn
+  unfold queryTree at hout
+  cases h : evalForward g mode steps with
+  | error e => simp [h] at hout
+  | ok r =>
+    obtain ⟨nodes, valid⟩ := r
+    simp only [h, Except.ok.injEq] at hout
+    subst hout
+    exact findResultNodes_complete hwf hac (intermediateConn hwf hac) mode steps nodes valid h queryAll n
+      ((evalForward_nodes g hwf mode steps nodes valid h n).mpr hn)
+
+/-- the set of packages returned by `queryTreePath` is the declarative set -/
+theorem query_returns_declarative_set (g : Graph) (hwf : g.WF) (hac : g.Acyclic) (mode : Mode) (steps : Steps)
+    (queryAll : Bool) (out : List (List Str × Node)) (hout : queryTree g mode steps queryAll = .ok out) (n : Node) :
+    (∃ s, (s, n) ∈ out) ↔ sem g steps g.root n := by
+  constructor
+  · rintro ⟨s, hs⟩
+    cases h : evalForward g mode steps with
+    | error e => simp [queryTree, h] at hout
+    | ok r =>
+      obtain ⟨nodes, valid⟩ := r
+      exact (result_paths_sound g hwf mode steps queryAll nodes valid h out hout (s, n) hs).1
+  · exact result_paths_complete g hwf hac mode steps queryAll out hout n
+
+theorem exGraph_acyclic : exGraph.Acyclic := by
+  -- every edge of the example leads to a larger key
+  have hlt : ∀ a b, edge exGraph true a b → a < b := by
+    rintro a b ⟨e, he, rfl, _⟩
+    match a with
+    | 0 => simp [exGraph, exChildren] at he; rcases he with rfl | rfl <;> decide
+    | 1 => simp [exGraph, exChildren] at he; subst he; decide
+    | 2 => simp [exGraph, exChildren] at he; subst he; decide
+    | n + 3 => simp [exGraph, exChildren] at he
+  have htg : ∀ a b, Relation.TransGen (edge exGraph true) a b → a < b := by
+    intro a b t
+    induction t with
+    | single h => exact hlt _ _ h
+    | tail _ h ih => exact Nat.lt_trans ih (hlt _ _ h)
+  intro a h
+  exact Nat.lt_irrefl a (htg a a h)
+
+/-- on the example graph the nested match `a`(3) below `a`(1) is reported: `//a` -/
+example (out : List (List Str × Node))
+    (h : queryTree exGraph .nullset (.cons .descendant ['a'] .none .nil) false = .ok out) :
+    ∃ s, (s, 3) ∈ out := by
+  apply result_paths_complete exGraph exGraph_wf exGraph_acyclic _ _ _ out h 3
+  simp only [sem, axisRel, holdsOpt]
+  have e01 : edge exGraph true 0 1 := ⟨⟨['a'], 1, true⟩, by simp [exGraph, exChildren], rfl, Or.inl rfl⟩
+  have e12 : edge exGraph true 1 2 := ⟨⟨['b'], 2, true⟩, by simp [exGraph, exChildren], rfl, Or.inl rfl⟩
+  have e23 : edge exGraph true 2 3 := ⟨⟨['a'], 3, true⟩, by simp [exGraph, exChildren], rfl, Or.inl rfl⟩
+  exact ⟨3, .tail (.tail (.single e01) e12) e23, by decide, trivial, rfl⟩
+
+/-! ### what is NOT true of the code (known finding F-C18-2) -/
+
+/-- the full wording of the property for reported paths: every reported stack passes through the
+steps of the query.  Not asserted: `valid` is a set of nodes, so the result walk may take an edge
+between two valid nodes that skips a step (F-C18-2). -/
+def result_paths_through_steps_goal : Prop :=
+  ∀ (g : Graph), g.WF → g.Acyclic → ∀ (mode : Mode) (steps : Steps) (queryAll : Bool) (out : List (List Str × Node)),
+    queryTree g mode steps queryAll = .ok out → ∀ p ∈ out, semPath g steps g.root p.1 p.2
+
+/-- witness graph of F-C18-2: root(0) → b(1) → a2(2), root → a2(2) -/
+def bypassChildren : Node → List Edge
+  | 0 => [⟨['b'], 1, true⟩, ⟨['a', '2'], 2, true⟩]
+  | 1 => [⟨['a', '2'], 2, true⟩]
+  | _ => []
+
+def bypassGraph : Graph :=
+  { size := 3, root := 0, name := fun i => if i = 1 then ['b'] else if i = 2 then ['a', '2'] else [],
+    children := bypassChildren, sval := fun _ _ => [] }
+
+/-- the model reproduces the finding: `b/a2` is reported at the stack `a2`, not `b/a2` -/
+theorem bypass_witness :
+    (queryTree bypassGraph .nullset (.cons .child ['b'] .none (.cons .child ['a', '2'] .none .nil)) false).toOption
+      = some [([['a', '2']], 2)] := by
+  decide
 
 /-! ### 7. constructor normalisations -/
 
